@@ -223,6 +223,27 @@ class KBEval:
             if s in self.env:
                 return self.env[s]
             w, _ = self.width_of(n)
+            if k == 'Idx':
+                # element of a constant global table: the element for a constant index, the join of all elements otherwise
+                b = astq.strip_all(n['b'])
+                q = b.get('q') if b['k'] == 'Ref' else None
+                g = None
+                if q and self.F is not None and self.F.has_glob(q):
+                    g = self.F.glob(q)
+                if g is not None and g.get('const') and g.get('init') and g['init']['k'] == 'InitList':
+                    els = [astq.val(e) for e in g['init']['e']]
+                    if els and None not in els:
+                        try:
+                            iv = self.ev(n['i']).value()
+                        except AnalysisBroken:
+                            iv = None
+                        if iv is not None and 0 <= iv < len(els):
+                            return KB.const(w, els[iv])
+                        if iv is None and g.get('arrlen', len(els)) == len(els):
+                            out = KB.const(w, els[0])
+                            for e_ in els[1:]:
+                                out = out.join(KB.const(w, e_))
+                            return out
             return KB.top(w)
         if k == 'Un':
             op = n['op']
